@@ -23,8 +23,8 @@ PROPERTY = "C20"
 LEVEL = "exploration"
 ASSUMPTIONS = [
     "component volume, area, mass and the per-component number-density dictionaries reported by armi are trusted "
-    "(they are the subject of C02/C03); block volume is re-derived as the sum of component volumes (full-core "
-    "symmetry only, symmetry factor 1)",
+    "(they are the subject of C02/C03); block volume is re-derived as the sum of component volumes divided by armi's "
+    "own symmetry factor (full-core and third-core layouts incl. the centre block, factor 3)",
     "weighted means recomputed with numpy in float64 are compared with rel 1e-10 (all terms non-negative, <= 24 members)",
     "admissible XS type alphabet = crossSectionGroupManager._ALLOWABLE_XS_TYPE_LIST (A-Z, a-z; "
     "getNextAvailableXsTypes hands out lower-case types itself); digits named in doc/user/inputs.rst are refused by "
@@ -170,10 +170,10 @@ def _r(x, n=4):
     return round(float(x), n)
 
 
-def _block_text(name, design, s):
+def _block_text(name, design, s, pitch=10.0):
     c = "        coolant: {shape: DerivedShape, material: Sodium, Tinput: 450.0, Thot: 450.0}\n"
     d = ("        duct: {shape: Hexagon, material: HT9, Tinput: 25.0, Thot: 450.0, ip: 9.0, mult: 1.0, op: 9.5}\n"
-         "        intercoolant: {shape: Hexagon, material: Sodium, Tinput: 450.0, Thot: 450.0, ip: duct.op, mult: 1.0, op: 10.0}\n")
+         "        intercoolant: {shape: Hexagon, material: Sodium, Tinput: 450.0, Thot: 450.0, ip: duct.op, mult: 1.0, op: %r}\n" % _r(pitch))
     t = "    %s: &%s\n" % (design, name)
     if FAMILY[design] == "fuel":
         t += "        fuel: {shape: Circle, material: UZr, Tinput: 25.0, Thot: 600.0, id: 0.0, od: %r, mult: 19}\n" % _r(0.7 * s)
@@ -191,11 +191,18 @@ def _block_text(name, design, s):
     return t + c + d
 
 
-def render(blocks):
-    """Blueprint text: block i is the only block of assembly ``A<i>`` placed at CELLS[i]."""
+# third-core layout: centre first (cut in three, symmetry factor 3), then cells of the modelled third incl. the ones
+# on the 0-degree line (2,-1), (4,-2), which stay whole; armi drops assemblies on the 120-degree line at construction,
+# so half blocks (factor 2) cannot be built this way
+THIRD_CELLS = [(0, 0), (2, -1), (1, 0), (1, 1), (0, 1), (2, 0), (3, -1), (0, 2), (1, 2), (2, 1), (3, 0), (4, -2)]
+
+
+def render(blocks, layout="full"):
+    """Blueprint text: block i is the only block of assembly ``A<i>`` placed at cell i of the layout."""
+    cells = {"full": CELLS, "third": THIRD_CELLS}[layout]
     L = ["blocks:\n"]
     for i, b in enumerate(blocks):
-        L.append(_block_text("blk%d" % i, DESIGNS[b["design"]], b["scale"]))
+        L.append(_block_text("blk%d" % i, DESIGNS[b["design"]], b["scale"], b.get("pitch", 10.0)))
     L.append("assemblies:\n")
     for i, b in enumerate(blocks):
         L.append("    assem%d:\n        specifier: A%d\n        blocks: [*blk%d]\n        height: [%r]\n        axial mesh points: [1]\n"
@@ -204,16 +211,16 @@ def render(blocks):
             L.append("        material modifications:\n            U235_wt_frac: [%r]\n            ZR_wt_frac: [%r]\n" % (_r(b["enrich"]), _r(b["zr"])))
         L.append("        xs types: [%s]\n" % b.get("bpXs", "A"))
     L.append("systems:\n    core:\n        grid name: core\n        origin: {x: 0.0, y: 0.0, z: 0.0}\n")
-    L.append("grids:\n    core:\n        geom: hex\n        symmetry: full\n        grid contents:\n")
+    L.append("grids:\n    core:\n        geom: hex\n        symmetry: %s\n        grid contents:\n" % ("full" if layout == "full" else "third periodic"))
     for i in range(len(blocks)):
-        L.append("            [%d,%d]: A%d\n" % (CELLS[i][0], CELLS[i][1], i))
+        L.append("            [%d,%d]: A%d\n" % (cells[i][0], cells[i][1], i))
     return "".join(L)
 
 
 _CS_CACHE = {}  # per worker process
 
 
-def build(blocks, settings=None):
+def build(blocks, settings=None, layout="full"):
     """(cs, bp, reactor, [core block of spec i])"""
     from armi.reactor import blueprints, reactors
 
@@ -224,7 +231,7 @@ def build(blocks, settings=None):
     cs = _CS_CACHE["base"]
     if settings:
         cs = cs.modified(newSettings=settings)  # the manager edits the cross-section settings: private copy
-    bp = blueprints.Blueprints.load(render(blocks))
+    bp = blueprints.Blueprints.load(render(blocks, layout))
     r = reactors.factory(cs, bp)
     byspec = {}
     for a in r.core:
@@ -359,10 +366,14 @@ def _diff(a, b, path=""):
 def measure(b):
     """Numbers the oracle needs from one member block."""
     comps = []
+    # blocks cut by the symmetry lines of a third-core model (centre: 3, both-edge models: 2) count with the part
+    # of their volume that is inside the model (Block.getVolume); armi's own factor is trusted
+    sf = float(b.getSymmetryFactor())
     for c in b:
         comps.append({
             "name": c.getName(),
-            "vol": float(c.getVolume()),
+            "vol": float(c.getVolume()) / sf,
+            "rawvol": float(c.getVolume()),
             "area": float(c.getArea()),
             "mass": float(c.getMass()),
             "T": float(c.temperatureInC),
@@ -373,6 +384,7 @@ def measure(b):
         "words": set(b.getType().split()),
         "family": FAMILY.get(b.getType()),
         "height": float(b.getHeight()),
+        "sf": sf,
         "vol": sum(c["vol"] for c in comps),
         "bu": float(b.p.percentBu),
         "hm": float(b.p.massHmBOL),
@@ -586,6 +598,10 @@ def collections_strategy(tier):
         "xsType": st.sampled_from(["A", "B", "Z", "a", "k", "z", "AA", "Ad", "ZZ", "zz"]),
         "envGroup": st.sampled_from(["A", "A", "B", "Z", "a", "z"]),
         "scaleBy": st.sampled_from([2.0, 0.5, 1e-3, 3.7, 1e6]),
+        "layout": st.sampled_from(["full", "third", "third"]),
+        # one block pitch per core: the blueprints refuse assemblies of different area in one core (InputError), so
+        # members of different area arise from the symmetry cuts of the third-core layouts
+        "pitch": st.sampled_from([10.0, 10.0, 9.7, 11.0, 12.5]),
     })
     return base.map(_avoid_known_collections)
 
@@ -663,7 +679,7 @@ def check_template(out, cand, rep, prefix):
     names = [c.getName() for c in rep]
     vols = [float(c.getVolume()) for c in rep]
     ok = any(m["words"] == words and [c["name"] for c in m["comps"]] == names
-             and all(_close(a, c["vol"], 1e-9) for a, c in zip(vols, m["comps"])) for m in cand)
+             and all(_close(a, c["rawvol"], 1e-9) for a, c in zip(vols, m["comps"])) for m in cand)
     out.check(ok, prefix + "/representative-not-shaped-like-an-eligible-member",
               lambda: "representative of type %r (components %s) matches no eligible member %s" % (rep.getType(), names, [m["name"] for m in cand]))
 
@@ -757,7 +773,10 @@ def collections_execute(case):
     for s in specs:
         s["bpXs"] = xs
 
-    cs, bp, r, blocks = build(specs)
+    layout = case.get("layout", "full")
+    for s in specs:
+        s["pitch"] = case.get("pitch", 10.0)
+    cs, bp, r, blocks = build(specs, layout=layout)
     nuclides = list(bp.allNuclidesInProblem)
     shared = test_lumpedFissionProduct.getDummyLFPFile().createLFPsFromFile() if case["lfp"] == 1 else None
     for b, s in zip(blocks, specs):
@@ -781,6 +800,11 @@ def collections_execute(case):
               "members:%s" % ("1" if len(meas) == 1 else "2-4" if len(meas) <= 4 else "5-12"),
               "ineligible-members" if len(cand) < len(meas) else "all-eligible",
               "families:%d" % len(families), "lfp:%d" % case["lfp"])
+    out.label("layout:" + layout)
+    if len({round(m["vol"] / m["height"], 9) for m in cand}) >= 2:
+        out.label("eligible-members-differ-in-area")
+    if any(m["sf"] != 1.0 for m in cand):
+        out.label("symmetry-factor:" + "+".join(sorted({"%g" % m["sf"] for m in cand if m["sf"] != 1.0})))
     if fluxW:
         out.label("flux:" + ("mixed" if ex.mixed else "allzero" if ex.allzero else "positive"))
         if not ex.mixed and ex_all.mixed:
@@ -912,17 +936,18 @@ def collections_execute(case):
         bad = [n for n in nuclides if not _close(t1[n], t2[n])]
         out.check(not bad, sig, lambda: "%s: temperature of %s %r -> %r" % (what, bad[0], float(t1[bad[0]]), float(t2[bad[0]])))
 
-    # invariance: duplicating every member
-    dup = _make_collection(kind, nuclides, filt, bool(case["byComponent"]))
-    for b in blocks:
-        dup.append(b)
-        twin = copy.deepcopy(b)
-        twin.name = b.getName() + "x"
-        dup.append(twin)
-    rep2 = dup.createRepresentativeBlock()
-    same_as(rep2, dup, "avg/changes-when-every-member-is-duplicated", "duplicating every member")
-    out.check(_close(rep.p.percentBu, rep2.p.percentBu), "avg/changes-when-every-member-is-duplicated",
-              lambda: "burnup %r -> %r" % (rep.p.percentBu, rep2.p.percentBu))
+    # invariance: duplicating every member (a free copy of a block cut by a symmetry line is a whole block, not a twin)
+    if all(m["sf"] == 1.0 for m in meas):
+        dup = _make_collection(kind, nuclides, filt, bool(case["byComponent"]))
+        for b in blocks:
+            dup.append(b)
+            twin = copy.deepcopy(b)
+            twin.name = b.getName() + "x"
+            dup.append(twin)
+        rep2 = dup.createRepresentativeBlock()
+        same_as(rep2, dup, "avg/changes-when-every-member-is-duplicated", "duplicating every member")
+        out.check(_close(rep.p.percentBu, rep2.p.percentBu), "avg/changes-when-every-member-is-duplicated",
+                  lambda: "burnup %r -> %r" % (rep.p.percentBu, rep2.p.percentBu))
     # invariance: only the eligible members
     if len(cand) < len(meas):
         only = _make_collection(kind, nuclides, filt, bool(case["byComponent"]))
